@@ -1085,6 +1085,29 @@ class Explorer:
             out.extend((s3, t, None) for s3, t in self.assume_fork(s2, lit, e))
         return out
 
+    def _distinct_named_constants(self, ka, kb) -> bool:
+        """Two different string literals, or two different members of one Enum class (auto() or different literal
+        values): certainly unequal and not identical."""
+        if not (isinstance(ka, tuple) and isinstance(kb, tuple) and ka and kb) or ka == kb:
+            return False
+        if ka[0] == 'str' and kb[0] == 'str' and len(ka) == 2 and len(kb) == 2:
+            return isinstance(ka[1], str) and isinstance(kb[1], str) and not ka[1].startswith('<')
+        if ka[0] == 'classattr' and kb[0] == 'classattr' and ka[1] == kb[1]:
+            cls = self.ix.classes.get(ka[1])
+            if cls is None or not any(('Enum' in ast.unparse(b_) or 'Flag' in ast.unparse(b_)) for b_ in cls.node.bases):
+                return False
+            vals = {}
+            for st in cls.node.body:
+                if isinstance(st, ast.Assign) and len(st.targets) == 1 and isinstance(st.targets[0], ast.Name):
+                    vals[st.targets[0].id] = st.value
+            va, vb = vals.get(ka[2]), vals.get(kb[2])
+            if va is None or vb is None:
+                return False
+            if isinstance(va, ast.Constant) and isinstance(vb, ast.Constant):
+                return va.value != vb.value
+            return all(isinstance(v, ast.Call) and ast.unparse(v.func).endswith('auto') for v in (va, vb))
+        return False
+
     def cmp_lit(self, op, a, b) -> Lit:
         ka, kb = key_of(a), key_of(b)
         if isinstance(op, (ast.Is, ast.IsNot, ast.Eq, ast.NotEq)):
@@ -1095,6 +1118,8 @@ class Explorer:
             if kb in (TRUE, FALSE) or ka in (TRUE, FALSE):
                 other, c = (ka, kb) if kb in (TRUE, FALSE) else (kb, ka)
                 return Lit('truth', key=other, pol=(pol == (c == TRUE)))
+            if self._distinct_named_constants(ka, kb):
+                return Lit.cmp('==' if pol else '!=', RF.const(0), RF.const(1))
             if isinstance(a, RF) and isinstance(b, RF):
                 return Lit.cmp('==' if pol else '!=', a, b)
             return Lit('opaque', key=(ka, kb), pol=pol, text='==')
@@ -1298,6 +1323,12 @@ class Explorer:
                 recv_for_call = recv
         else:
             static_recv, recv_for_call = None, recv
+        # NT._make(entry): the same components under their field names
+        if name == '_make' and not internal and not news and len(args) == 1 and not kwargs and isinstance(recv, RF):
+            ra_ = recv.single_atom()
+            if isinstance(ra_, tuple) and len(ra_) >= 2 and ra_[0] == 'class' and ra_[1] in self.ix.classes and \
+                    self.ix.classes[ra_[1]].namedtuple_fields is not None:
+                return [(s, args[0], None)]
         # ---- symbolic models of arithmetic externals
         if internal and not news and exts and set(exts) <= {'builtins.map', 'builtins.filter'} and \
                 all(c.name in ('__iter__', '__next__') for c in internal):
@@ -1327,6 +1358,16 @@ class Explorer:
             obj = atomv(('fresh', cls.name, occ, f'{f.module.relpath}:{e.lineno}'))
             ev_ = s.emit('new', e, cls=cls, args=args, kwargs=kwargs, result=obj, name=cls.name)
             init = cls.lookup('__init__')
+            if init is None and cls.dataclass_fields:
+                # synthesised constructor of a dataclass: the arguments become the fields
+                flds = cls.dataclass_fields
+                bound = dict(zip(flds, args))
+                bound.update({k: v for k, v in kwargs.items() if k in flds})
+                for fld, v in bound.items():
+                    s.heap[(key_of(obj), fld)] = v
+                    s.emit('store', e, tkind='attr', base=obj, field=fld, value=v, aug=False,
+                           tdesc=f'{fmt_key(key_of(obj))}.{fld}', target=None)
+                return [(s, obj, None)]
             if init is not None and self.inline_ctor and len(s.frames) <= self.max_depth:
                 res = []
                 for s2, _, exc in self.inline_call(init, obj, args, kwargs, s, e, force=True):
